@@ -140,6 +140,14 @@ Theorem C04_macro_free_token_end_position : forall (msep : bool) (src : list cha
 Proof. exact mf_C04_macro_free_token_end_position. Qed.
 Print Assumptions C04_macro_free_token_end_position.
 
+(** ... and the last token of any buffer (the EOF token) ends where it starts, in both profiles *)
+Theorem C04_last_token_end : forall (d : bool) (b : tbuf) (i : N) (t : tok),
+  nthN (b_toks b) i = Some t -> i + 1 = n_toks b ->
+  get_token_end_line d b i = get_token_start_line d b i /\
+  get_token_end_column d b i = get_token_start_column d b i.
+Proof. exact last_token_end. Qed.
+Print Assumptions C04_last_token_end.
+
 (** Lines and columns of errors.  For every input and both profiles: if the run returns with the
     monitor on, every reported error carries the 1-based line of its position (one plus the number
     of line feeds before it) and, as column, the number of characters since the last line feed
